@@ -45,3 +45,120 @@ Print Assumptions C10_stack_step_is_source.
 Example C10_stack_step_is_source_ex :
   gsstep 0%Z [4%Z; 5%Z] (SPop Z) = ([4%Z], TValBool Z 5%Z true) /\ gsstep 0%Z [4%Z; 5%Z] (SSlice Z) = ([4%Z; 5%Z], TPanic Z).
 Proof. split; vm_compute; reflexivity. Qed.
+
+(* ---- mlink.List through any number of cursors ----
+   [MlinkListSource.gstep zero g o] (GenTie/MlinkListSource.v): state g = (the generated heap of
+   entry cells, the Cursor values in the caller's hands: each its pred field, option nat); the list
+   is the one whose sentinel sits at address 0, which is what the GENERATED NewList returns on the
+   empty heap ([ginit]).  Every op of the model's histories calls the generated function: List_At /
+   Last / End / Find hand out a new Cursor; Cursor_Get / Set / AtEnd / Next / Push / Add / Remove /
+   Truncate work on the k-th cursor's pred field (Next and Add hand back the new pred, the writers
+   the new heap); List_Clear / Peek / Len / IsEmpty; List_Each with the state-threading callback
+   (f v, visited ++ [v]); struct copy / assignment / the zero Cursor are no calls.  Fuel: heap size + 2
+   (Add: + the number of values).  A panic with the message of a panic statement ("invalid cursor",
+   "index out of range") or Go's nil dereference is the output RPanic kind; after a failed call the
+   state is the one before the call.
+   COVERED: all twenty operations of the model's histories.  NOT COVERED: the heap at the moment of a
+   panic (not returned by the generated functions); Go's int width (C10_at_counter_in_range is
+   model-level); the pre-repair Truncate (C10_F7_*: about the model's pinned variant). *)
+From Mds Require Import Mlink.MlinkModel Mlink.MlinkSpec.
+From Mds Require Mlink.MlinkProofs GenTie.MlinkTieBase.
+From Mds Require GenTie.MlinkQueueSource GenTie.MlinkListSource.
+Module LS := MlinkListSource.
+Module QS := MlinkQueueSource.
+
+(* Refinement over whole histories: every output (values, flags, Each sequences, Len, panics) of
+   the GENERATED functions equals the output of the abstract semantics, in which contents are a list
+   and a cursor is At i, Stale or NoPred, edited by the documented before/after pictures.  No
+   hypothesis, as C10_list_refinement. *)
+Theorem C10_list_refinement_source : forall (T : Type) (zero : T) (ops : list (op T)),
+  LS.grun zero (LS.ginit zero) ops = arun T zero (ainit T) ops.
+Proof. exact @LS.list_refinement_source. Qed.
+Print Assumptions C10_list_refinement_source.
+
+(* the two histories of C10_list_refinement_ex / _copies_ex through the generated functions *)
+Example C10_list_refinement_source_ex :
+  LS.grun 0%Z (LS.ginit 0%Z)
+    [OEnd; OAdd 0 [1;2;3]%Z; OAt 1; OAt 2; ORemove 1; OGet 1; OGet 2; OTruncate 1; OEnd; OAdd 3 [7]%Z; OEach (fun _ => true); OLen;
+     OAt (-1)%Z; OPeek 1%Z; OFind (fun x => Z.eqb x 7); OGet 4; OClear; OGet 4; OIsEmpty]
+  = [RUnit; RUnit; RUnit; RUnit; RVal 2%Z; RVal 3%Z; RPanic InvalidCursor; RUnit; RUnit; RUnit; RList [1;7]%Z; RInt 2%Z;
+     RPanic IndexRange; RValBool 7%Z true; RUnit; RVal 7%Z; RUnit; RPanic InvalidCursor; RBool true] /\
+  LS.grun 0%Z (LS.ginit 0%Z)
+    [OAt 0; OAdd 0 [1;2;3]%Z; OAt 0; OCopy 1; ONext 1; OGet 1; OGet 2; ORemove 2; OCopy 1; OGet 1; OGet 3;
+     OAssign 1 2; OGet 1; ONilCursor; OGet 4; OAdd 4 []; OAdd 4 [5]%Z; OCopy 4; OAtEnd 5; OEach (fun _ => true)]
+  = [RUnit; RUnit; RUnit; RUnit; RBool true; RVal 2%Z; RVal 1%Z; RVal 1%Z; RUnit; RPanic InvalidCursor; RPanic InvalidCursor;
+     RUnit; RVal 2%Z; RUnit; RPanic NilDeref; RUnit; RPanic NilDeref; RUnit; RPanic NilDeref; RList [2;3]%Z].
+Proof. split; vm_compute; reflexivity. Qed.
+
+(* Invariant of every state the generated functions reach: it is (the encoding of) a model state
+   tied to the reference state by R (a duplicate-free chain from the sentinel to nil, every other
+   cell self-linked, the values along the chain are the reference list, every cursor's pred is the
+   chain cell its reference position says, or a self-linked cell when Stale). *)
+Theorem C10_list_invariant_source : forall (T : Type) (zero : T) (ops : list (op T)),
+  exists m', LS.grun_state zero (LS.ginit zero) ops = LS.menc m' /\
+             MlinkProofs.R T zero m' (arun_state T zero (ainit T) ops).
+Proof. exact @LS.list_invariant_source. Qed.
+Print Assumptions C10_list_invariant_source.
+Example C10_list_invariant_source_ex :
+  LS.grun_state 0%Z (LS.ginit 0%Z) [OEnd; OAdd 0 [1;2;3]%Z; OAt 1; ORemove 1]
+  = ([FnMlink.mk_entry 0%Z (Some 1); FnMlink.mk_entry 1%Z (Some 3); FnMlink.mk_entry 2%Z (Some 2); FnMlink.mk_entry 3%Z None],
+     [Some 3; Some 1]).
+Proof. vm_compute. reflexivity. Qed.
+
+(* No generated call of any history hangs or touches a dangling address. *)
+Theorem C10_list_never_hangs_source : forall (T : Type) (zero : T) (ops : list (op T)),
+  ~ In RHang (LS.grun zero (LS.ginit zero) ops) /\ ~ In RBad (LS.grun zero (LS.ginit zero) ops).
+Proof. exact LS.list_never_hangs_source. Qed.
+Print Assumptions C10_list_never_hangs_source.
+
+(* On every history the generated functions answer exactly as the model does. *)
+Theorem C10_list_run_is_source : forall (T : Type) (zero : T) (ops : list (op T)),
+  LS.grun zero (LS.ginit zero) ops = run T zero (init T zero) ops.
+Proof. exact LS.list_run_is_source. Qed.
+Print Assumptions C10_list_run_is_source.
+
+(* One step against the MODEL's step, for EVERY state (well-formed or not): the same output; the
+   model's new state after a call that succeeded, the state before the call after one that failed
+   -- provided the model's own loop budget did not run out. *)
+Theorem C10_list_step_is_source : forall (T : Type) (zero : T) (m : mstate T) (o : op T),
+  snd (step T zero m o) <> RHang ->
+  snd (LS.gstep zero (LS.menc m) o) = snd (step T zero m o) /\
+  fst (LS.gstep zero (LS.menc m) o) = LS.menc (if LS.failed (snd (step T zero m o)) then m else fst (step T zero m o)).
+Proof. exact @LS.gstep_agrees. Qed.
+Print Assumptions C10_list_step_is_source.
+Example C10_list_step_is_source_ex :
+  (* a self-linked (stale) pred: every use is refused *)
+  let m : mstate Z := ([(0, Ptr 2); (1, Ptr 1); (2, Nil)]%Z, [Ptr 1]) in
+  LS.gstep 0%Z (LS.menc m) (OPush 0 5%Z) = (LS.menc m, RPanic InvalidCursor) /\
+  LS.gstep 0%Z (LS.menc m) (OCopy 0) = (LS.menc (fst m, [Ptr 1; Ptr 1]), RUnit).
+Proof. split; vm_compute; reflexivity. Qed.
+
+(* ---- mlink.Queue ----
+   [MlinkQueueSource.gqstep zero g o]: state g = (q.back, q.size, heap); Queue_Add / Pop / Clear return
+   the fields they assign and the new heap, Queue_Front / Peek / IsEmpty / Len read, Queue_Each runs
+   the state-threading callback (f v, visited ++ [v]); fuel heap size + 2.  [gq_new] = what the
+   GENERATED NewQueue returns on the empty heap; [gq_zero] = the zero Queue (back.pred = nil) with its
+   embedded sentinel at address 0.  COVERED: all eight operations and both ways to make a queue. *)
+
+(* For every history of Add/Pop/Front/Peek/Each/Clear/Len/IsEmpty, from NewQueue() and from a zero
+   Queue, the outputs of the GENERATED functions are those of the FIFO reference -- including Add
+   after the queue was emptied by Pop or Clear. *)
+Theorem C10_queue_fifo_source : forall (T : Type) (zero : T) (ops : list (qop T)),
+  QS.gqrun zero (QS.gq_new zero) ops = aqrun T zero [] ops /\
+  QS.gqrun zero (QS.gq_zero zero) ops = aqrun T zero [] ops.
+Proof. exact @QS.queue_fifo_source. Qed.
+Print Assumptions C10_queue_fifo_source.
+Example C10_queue_fifo_source_ex :
+  QS.gqrun 0%Z (QS.gq_zero 0%Z) [QAdd 1%Z; QPop; QAdd 2%Z; QAdd 3%Z; QPop; QPop; QPop; QAdd 4%Z; QFront; QLen;
+                                 QPeek (-1)%Z; QAdd 5%Z; QEach (fun _ => true); QClear; QIsEmpty; QAdd 6%Z; QPeek 0%Z]
+  = [RUnit; RValBool 1%Z true; RUnit; RUnit; RValBool 2%Z true; RValBool 3%Z true; RValBool 0%Z false; RUnit; RVal 4%Z; RInt 1%Z;
+     RPanic IndexRange; RUnit; RList [4;5]%Z; RUnit; RBool true; RUnit; RValBool 6%Z true] /\
+  QS.gq_new 0%Z = (FnMlink.mk_Cursor (Some 0), 0%Z, [FnMlink.mk_entry 0%Z None]).
+Proof. split; vm_compute; reflexivity. Qed.
+
+(* On every history the generated queue functions answer exactly as the model does. *)
+Theorem C10_queue_run_is_source : forall (T : Type) (zero : T) (ops : list (qop T)),
+  QS.gqrun zero (QS.gq_new zero) ops = qrun T zero (new_queue T zero) ops /\
+  QS.gqrun zero (QS.gq_zero zero) ops = qrun T zero (zero_queue T zero) ops.
+Proof. exact QS.queue_run_is_source. Qed.
+Print Assumptions C10_queue_run_is_source.
